@@ -21,7 +21,7 @@ build() {
     go build -o build/bin/rtgen ./engine/rtgen || exit 2
     # regenerate variants only when the tool or generator changed
     SUM=$(sha256sum build/bin/pigeon-verif build/bin/rtgen | sha256sum | cut -d' ' -f1)
-    if [ ! -f build/rt/.sum ] || [ "$(cat build/rt/.sum)" != "$SUM" ]; then
+    if [ ! -f build/rt/.sum ] || [ "$(cat build/rt/.sum)" != "$SUM" ] || [ -s build/rt/broken.txt ]; then
       rm -rf build/rt && mkdir -p build/rt
       ./build/bin/rtgen -hook build/bin/pigeon-verif -out build/rt || exit 2
       echo "$SUM" > build/rt/.sum
@@ -30,6 +30,19 @@ build() {
     go build -o build/bin/maporder ./engine/maporder || exit 2
     ./build/bin/maporder -out "$ROOT/build/overlay" >/dev/null || exit 2
     (cd /repo && go build -tags verif -overlay "$ROOT/build/overlay/overlay.json" -o "$ROOT/build/bin/pigeon-verif-order" .) || exit 2
+    # A runtime variant that does not compile is a finding about the working tree
+    # (emitted parsers for that flag set do not compile), not a harness failure:
+    # it is replaced by a stub, recorded in build/rt/broken.txt, reported by C04
+    # and skipped by the other checks.
+    : > build/rt/broken.txt
+    for v in build/rt/v[0-9][0-9]; do
+      if ! go build ./$v >build/rt/$(basename $v).err 2>&1; then
+        echo "$(basename $v): $(grep -v '^#' build/rt/$(basename $v).err | head -3 | tr '\n' ' ')" >> build/rt/broken.txt
+        rm -f $v/*.go
+        printf 'package %s\n' "$(basename $v)" > $v/stub.go
+      fi
+      rm -f build/rt/$(basename $v).err
+    done
     go build -o build/bin/vcheck ./cmd/vcheck || exit 2
     # free-running race-detector pass for C18 (same scenario bodies, real sync.Pool)
     if [ "$ID" = "C18" ] || [ "$ID" = "setup" ]; then
